@@ -167,6 +167,9 @@ def check_atomic_value(run, cls, v, ctx_numbers):
     except Exception as err:
         run.count("ctor_refused")
         run.seen("ctor_refusal_types", type(err).__name__)
+        if kind == R.ENUM and isinstance(v, str) and any(v in getattr(k, "enumerations", {}) for k in cls.__mro__):
+            # a name the class (or the enumeration it is derived from) declares
+            run.violation("declared-enumeration-name-refused/" + type(err).__name__, dict(wit, error=repr(err)[:100]))
         return
     if kind == R.OBJID and isinstance(v, int) and not isinstance(v, bool) and not (0 <= v <= 0xFFFFFFFF):
         # a word that does not fit the 10 + 22 bits cannot denote an object identifier: accepting it means wrapping it
